@@ -183,7 +183,7 @@ def SPFKinSpaceR(leg_lengths : 'np.ndarray[float]',
         #Hence solve system for delta_{a} - The change in lengths
         top_plate_delta = np.linalg.solve(dfda, f)
 
-        if abs(np.sum(top_plate_delta)) < tol_a:
+        if np.sum(np.abs(top_plate_delta)) < tol_a:
             #print ("Small change in lengths -- converged?")
             break
         top_plate_guess = top_plate_guess + top_plate_delta
